@@ -25,6 +25,10 @@ def write_inst(fmt, ns, aln, nls, tier_ob="O1", **kw):
          "VK_STR_MAX": 48, "VK_NAME_CAP": 8, "VK_MSA_CAP": ns, "VK_SEQ_CAP": aln + 2}
     if ns > 2:
         d["VK_NL3"] = nls[2]
+    win = None
+    if fmt == 2 and aln >= 59:
+        win = (aln - 5, aln) if aln % 60 in (59, 0, 1) and aln < 100 else (56, 62)
+        d["VK_WIN_LO"], d["VK_WIN_HI"] = win
     fname = {1: "fasta", 2: "msf", 3: "clu"}[fmt]
     return Inst(ob={1: "O1", 2: "O3", 3: "O2"}[fmt], name="write_%s_ns%d_aln%d_n%s" % (fname, ns, aln, "".join(map(str, nls))), harness="c15_write.c",
                 defs=d, srcs=IO_SRCS, models=IO_MODELS, native_srcs=IO_NATIVE,
@@ -34,13 +38,14 @@ def write_inst(fmt, ns, aln, nls, tier_ob="O1", **kw):
                 funcs={1: ["kalign_write_msa", "write_msa_fasta"], 2: ["kalign_write_msa", "write_msa_msf", "GCGchecksum", "GCGMultchecksum", "sort_out_lines", "free_line_buffer"],
                        3: ["kalign_write_msa", "write_msa_clu", "sort_out_lines", "free_line_buffer"]}[fmt],
                 cost=ns * aln * (3 if fmt == 2 else 1),
-                bound="%s, %d rows x %d columns, name lengths %s; all row and name characters, molecule kind symbolic" % (fname, ns, aln, nls[:ns]),
+                bound="%s, %d rows x %d columns, name lengths %s; %s, molecule kind symbolic" % (fname, ns, aln, nls[:ns],
+                      ("columns %d..%d symbolic over a fixed backdrop (partially symbolic instance)" % (win[0], win[1] - 1)) if win else "all row characters symbolic"),
                 desc="writer output parsed by an independent reader", **kw)
 
 def instances(tier):
     out = []
     if tier == "quick":
-        widths = {1: [(2, 1), (2, 3), (3, 4), (2, 60), (2, 61)], 2: [(2, 1), (2, 3), (3, 4)], 3: [(2, 2), (3, 4), (2, 61)]}
+        widths = {1: [(2, 1), (3, 4), (2, 59), (2, 60), (2, 61)], 2: [(2, 1), (2, 3), (3, 4), (2, 60)], 3: [(2, 2), (3, 4), (2, 60), (2, 61)]}
     else:
         widths = {1: [(ns, a) for ns in (2, 3) for a in (1, 2, 3, 4, 5, 59, 60, 61, 120, 121)],
                   2: [(ns, a) for ns in (2, 3) for a in (1, 2, 3, 4, 5, 6)] + [(2, 59), (2, 60), (2, 61)],
